@@ -251,6 +251,17 @@ def run(ctx):
                 ctx.reject(en)
                 ctx.note_add("rejection_messages", f"case {gi}: {en}: {str(e)[:140]}")
                 continue
+            # counterfactual probe: the statement is about circuits the device can execute; if the very same circuit WITHOUT its snapshots
+            # fails in the same way on this device, the failure belongs to the simulator (C26/C27/C28/C33), not to the snapshot machinery
+            try:
+                make_qnode(1000 + gi, with_snaps=False)()
+                same = False
+            except Exception as e2:  # noqa: BLE001
+                same = type(e2).__name__ == en
+            if same:
+                ctx.reject(f"circuit-fails-without-snapshots:{devname}:{en}")
+                ctx.note_add("rejection_messages", f"case {gi}: without snapshots too: {en}: {str(e)[:140]}")
+                continue
             ctx.ev("snap.value")
             ctx.violation("snap.value", f"qp.snapshots raised {en}: {str(e)[:300]} ({devname}, {path}, shots={shots})", case=info,
                           mech=retag(f"raises:{en}:{devname}:{path}:{'shots' if shots else 'analytic'}:{'batch' if spec['batch'] else 'nobatch'}"))
